@@ -11,10 +11,14 @@
 (*   fx[t]   the track carries one effect that halves the signal            *)
 (*   vol[t]  track volume, rv[t] volume of the route t -> S: 1 (0 dB),      *)
 (*           0 (-60 dB, exactly silent) or -1 (no such route)               *)
+(*   send2, rv2[t]   a second send track S2 (no effect, 0 dB) and the       *)
+(*           routes t -> S2, (in the route table in no particular order) *)
 (* Events                                                                   *)
 (*   op  o x      pause / resume track x (zero-length fade), finish sound x,*)
 (*                drop x = "B": the handle of B; "AB": the handles of both  *)
-(*                sub-tracks (removal rules proper are C12's subject; the   *)
+(*                sub-tracks; "S" / "S2": the handle of that send track - its *)
+(*                routes then contribute silence, every other route goes on *)
+(*                (removal rules proper are C12's subject; the              *)
 (*                drivers drop only tracks that have been picked up)        *)
 (*   cb  n b out asks n0    a callback of n frames with internal buffer b:  *)
 (*                out[f] scaled output of frame f, asks[s] = lengths of the *)
@@ -32,6 +36,7 @@ PInit(sc) ==
   [ sc |-> sc,
     live |-> sc.snd,                 \* sounds playing
     alive |-> sc.trk,                \* sub-tracks that exist
+    sends |-> (IF sc.send THEN {"S"} ELSE {}) \cup (IF sc.send2 THEN {"S2"} ELSE {}),
     paused |-> {}, pend |-> <<>>,
     cnt |-> TLCEval([s \in Snds |-> 0]) ]
 
@@ -53,6 +58,7 @@ After(m) ==
       alive2 == (m.alive \ (IF goneA THEN (IF m.sc.shape = "chain" THEN {"A", "B"} ELSE {"A"}) ELSE {})) \ (IF goneB THEN {"B"} ELSE {})
   IN [m EXCEPT !.live = {s \in m.live \ fin : Host(s) = "main" \/ Host(s) \in alive2},
                !.alive = alive2,
+               !.sends = m.sends \ drp,
                !.paused = {t \in alive2 : (t \in m.paused /\ lastOp(t) # "resume") \/ lastOp(t) = "pause"},
                !.pend = <<>>]
 
@@ -77,7 +83,11 @@ Expected(m1, f) ==
   LET top == IF m1.sc.shape = "chain" THEN {"A"} ELSE {"A", "B"}
       subs == (IF "A" \in top THEN TrackOut(m1, "A", f) ELSE 0) + (IF "B" \in top THEN TrackOut(m1, "B", f) ELSE 0)
       sendIn == (IF m1.sc.rv["A"] = 1 THEN TrackOut(m1, "A", f) ELSE 0) + (IF m1.sc.rv["B"] = 1 THEN TrackOut(m1, "B", f) ELSE 0)
-      send == IF m1.sc.send THEN Half(sendIn, m1.sc.fx["S"]) * m1.sc.vol["S"] ELSE 0
+      send1 == IF "S" \in m1.sends THEN Half(sendIn, m1.sc.fx["S"]) * m1.sc.vol["S"] ELSE 0
+      send2 == IF "S2" \in m1.sends
+               THEN (IF m1.sc.rv2["A"] = 1 THEN TrackOut(m1, "A", f) ELSE 0) + (IF m1.sc.rv2["B"] = 1 THEN TrackOut(m1, "B", f) ELSE 0)
+               ELSE 0
+      send == send1 + send2
       own == IF Asked(m1, "s0") THEN Val("s0", m1.cnt["s0"] + f) ELSE 0
   IN Half(own + subs + send, m1.sc.fx["main"]) * m1.sc.vol["main"]
 
